@@ -125,6 +125,13 @@ func init() {
 				Vars:           map[string]string{"sig.Algorithm.Signature": "alg"},
 				Repl:           repl})()
 	}})
+	wvf := "internal/witness/verifier/verifier.go"
+	wvX := "sth.WitnessSigs"
+	su = append(su, unit{"WitnessVerifier.VerifySignature", hkc(wvf, "WitnessVerifier.VerifySignature", "witnessVerifySignature", "(noSigs marshalFails someValid : Bool)", "Bool", "", "false",
+		Spec{Kind: "u64", Lazy: true, ErrCalls: map[string]string{"tls.Marshal": "marshalFails"},
+			RangeCond: map[string]string{wvX: "someValid", "cond:" + wvX: "err := wv.SigVerifier.VerifySignature(sigData, tls.DigitallySigned(sig)) ; err == nil"},
+			Repl: map[string]string{"len(sth.WitnessSigs) == 0": "noSigs", "nil": "false", `errors.New("no witness signature present in the STH")`: "true",
+				`errors.New("failed to verify any signature for this witness")`: "true", `fmt.Errorf("failed to marshal internal STH: %v", err)`: "true"}})})
 	register(genFile{name: "SigTie", imports: []string{"CTV.Basic.I64", "CTV.Basic.ErrKind"}, units: su})
 	register(genFile{name: "ClientTie", imports: []string{"CTV.Basic.I64", "CTV.Basic.ErrKind"}, units: us})
 }
